@@ -220,7 +220,7 @@ func (vc *FnVC) applyContract(st *State, u *Unit, callee *ssa.Function, pkg *typ
 	// 2. effects
 	if u.HasMod || u.Trusted || u.Pure {
 		if u.ModInferred && callee != nil {
-			ws, all := vc.G.fnWrites(callee)
+			ws, all := vc.G.fnWrites(callee, vc.rootPkg())
 			if all {
 				vc.note("call to %s: unknown effects, whole heap havocked", short)
 			}
@@ -267,7 +267,7 @@ func (vc *FnVC) applyContract(st *State, u *Unit, callee *ssa.Function, pkg *typ
 		var ws map[string]bool
 		var all bool
 		if callee != nil {
-			ws, all = vc.G.fnWrites(callee)
+			ws, all = vc.G.fnWrites(callee, vc.rootPkg())
 			ws = copySet(ws)
 		} else {
 			ws, all = vc.G.callWrites(vc.fn, c)
@@ -523,6 +523,16 @@ func (vc *FnVC) libModel(st *State, callee *ssa.Function, c *ssa.CallCommon, arg
 		return vc.bytesToString(st, args[0], rt)
 	case "unsafe.String", "unsafe.StringData", "unsafe.SliceData", "unsafe.Slice":
 		return nil
+	}
+	return nil
+}
+
+func (vc *FnVC) rootPkg() *types.Package {
+	if vc.fn.Pkg != nil {
+		return vc.fn.Pkg.Pkg
+	}
+	if vc.fn.Parent() != nil && vc.fn.Parent().Pkg != nil {
+		return vc.fn.Parent().Pkg.Pkg
 	}
 	return nil
 }
